@@ -2183,3 +2183,39 @@ Example ex_nested_conclusion :
   point_meta ex_grid 1 1 5120 3000 2 = (2, 1, 2) /\
   In (2, 1, 2) (procs (geo_walk ex_grid 1 1 (cov_bboxes [ex_cov]) 0 [0; 1; 2] ex_cov None)).
 Proof. vm_compute. split; [reflexivity|]. tauto. Qed.
+
+(* ------------------------------------------------------------------ the running() hook *)
+
+(* with a running() hook that never answers False the walker with the stop path is the walker of the theorems *)
+Lemma run_node_s_never n : forall old w,
+    run_node_s old n (mkS w None false) = (fst (run_node old n w), mkS (snd (run_node old n w)) None false).
+Proof.
+  induction n as [|lv proc rep total subs IH] using wnode_ind2; intros old w; [reflexivity|].
+  cbn [run_node_s run_node scnt sw].
+  assert (H : forall i w,
+             run_subs_s (run_node_s old) old lv proc total subs i (mkS w None false) =
+             (fst (run_subs (run_node old) old lv proc total subs i w),
+              mkS (snd (run_subs (run_node old) old lv proc total subs i w)) None false)).
+  { clear w. induction subs as [|s r IHr]; intros i w; cbn [run_subs_s run_subs]; [reflexivity|].
+    specialize (IHr (fun t c H => IH t c (or_intror H))).
+    assert (Hs : run_sub_s (run_node_s old) old lv proc total i s (mkS w None false) =
+                 (fst (run_sub (run_node old) old lv proc total i s w),
+                  mkS (snd (run_sub (run_node old) old lv proc total i s w)) None false)).
+    { destruct s as [|t|t c]; cbn [run_sub_s run_sub sw scnt shalt].
+      - reflexivity.
+      - destruct (do_process proc lv t w); reflexivity.
+      - cbv zeta. cbn [ps dq].
+        destruct (already_processed old (step_down_enter (ps w) i total)).
+        + cbn [shalt sw scnt ps dq]. destruct (do_process proc lv t _); reflexivity.
+        + rewrite (IH t c (or_introl eq_refl)). destruct (run_node old c _) as [evc stc]. cbn [fst snd shalt sw scnt].
+          destruct (do_process proc lv t _); reflexivity. }
+    rewrite Hs. destruct (run_sub (run_node old) old lv proc total i s w) as [ev1 w1]. cbn [fst snd shalt].
+    rewrite IHr. destruct (run_subs (run_node old) old lv proc total r (i + 1) w1). reflexivity. }
+  rewrite H. destruct (run_subs (run_node old) old lv proc total subs 0 w). reflexivity.
+Qed.
+
+Lemma run_walk_s_never old tree flv : run_walk_s old tree flv None = run_walk old tree flv.
+Proof.
+  unfold run_walk_s, run_walk, run_walk_raw. destruct (already_processed old (ps st0)); [reflexivity|].
+  rewrite run_node_s_never. destruct (run_node old tree st0). reflexivity.
+Qed.
